@@ -48,6 +48,37 @@ fn emit_case(hash: &str, heights: &[u64], c: u64) {
             o => format!("{{\"c\":\"{}\"}}", o.class()),
         })
         .emit();
+    // implementation-only oracle: the property itself, computed independently with u128 arithmetic
+    let total: u32 = heights.iter().sum::<u64>() as u32;
+    let mut want_digits = Vec::new();
+    {
+        let mut below: u32 = 0;
+        for h in heights.iter().rev() {
+            want_digits.push(((c as u128).checked_shr(below).unwrap_or(0) & ((1u128 << h) - 1)) as u64);
+            below += *h as u32;
+        }
+        want_digits.reverse();
+    }
+    let leaves: u128 = if total >= 128 { u128::MAX } else { 1u128 << total };
+    let want_next: Option<u64> = if (c as u128) + 1 < leaves && c < u64::MAX { Some(c + 1) } else { None };
+    let want_life: u128 = (leaves - ((c as u128) % leaves)).min(u64::MAX as u128);
+    let mut why = String::new();
+    match &d {
+        Out::Ok(v) if *v == want_digits => {}
+        _ => why.push_str("leaf digits are not the mixed-radix digits of the counter; "),
+    }
+    match (&i, want_next) {
+        (Out::Ok(nb), Some(nc)) if nb[..8] == nc.to_be_bytes() && nb[8..] == b[8..] => {}
+        (Out::Ok(nb), None) if nb[..8] == [0u8; 8] && nb[8..16] == [0xffu8; 8] && nb[16..].iter().all(|x| *x == 0) && nb.len() == b.len() => {}
+        _ => why.push_str("successor is not counter+1 / the wiped key; "),
+    }
+    match &l {
+        Out::Ok(x) if *x as u128 == want_life => {}
+        _ => why.push_str("lifetime is not leaves minus counter; "),
+    }
+    Line::new("oracle").str("name", "mixed_radix_rule").raw("ok", if why.is_empty() { "true" } else { "false" })
+        .str("why", &why).str("hash", hash).nums("hs", heights).str("c", &c.to_string()).hex("blob", &b)
+        .out_nums("digits", &d).out_bytes("next", &i).emit();
 }
 
 pub fn run(seed: u64, thorough: bool) {
